@@ -41,12 +41,12 @@ ALLOWED = {
     'ESTABLISHED': {'ESTABLISHED', 'IDLE'},
 }
 CONNECTED = {'CONNECT', 'OPENSENT', 'OPENCONFIRM', 'ESTABLISHED'}
-ACTS = ['connect-in', 'close', 'reset', 'send-ka', 'send-update', 'send-open', 'send-notification', 'send-refresh', 'send-garbage', 'send-unknown', 'send-bad-open',
+ACTS = ['connect-in', 'close', 'reset', 'send-ka', 'send-update', 'send-open', 'send-notification', 'send-refresh', 'send-garbage', 'send-unknown', 'send-bad-open', 'garbage-then-write-fails',
         'silent-on', 'silent-off', 'refuse', 'blackhole', 'slow-accept', 'accept', 'teardown', 'reload-same', 'reload-changed', 'reload-removed', 'restart']  # fmt: skip
 
 
 def counts(tier: str):
-    return (300, 75.0) if tier == 'quick' else (20000, 900.0)
+    return (1200, 75.0) if tier == 'quick' else (20000, 900.0)
 
 
 def generate(rng, tier: str, index: int) -> dict:
@@ -186,6 +186,12 @@ def execute(plan: dict) -> dict:
             sess.send(R.route_refresh(1, 1))
         elif act == 'send-garbage' and sess:
             sess.send(bytes([a]) * 19)
+        elif act == 'garbage-then-write-fails' and sess:
+            # ExaBGP reads a bad message and decides to answer with a NOTIFICATION, but the peer's window is closed
+            # and the connection is reset while the NOTIFICATION waits to be written: the write itself fails
+            sess.conn.set_window(0)
+            sess.send(bytes([a]) * 19)
+            w.after(0.15 + 0.05 * (a % 4), lambda sess=sess: sess.reset())
         elif act == 'send-unknown' and sess:
             sess.send(R.message(9 + a, b'\x00\x01'))
         elif act == 'silent-on':
@@ -247,12 +253,24 @@ def execute(plan: dict) -> dict:
 
     unref: dict[int, float] = {}
 
+    dead: dict = {}
+
     def orphan_watch() -> None:
         owned = set()
-        for p in w.reactor._peers.values():
+        for name_, p in w.reactor._peers.items():
             pr = p.proto
             if pr is not None and pr.connection is not None and pr.connection.io is not None:
                 owned.add(id(pr.connection.io))
+            # a session whose transport is gone (reset by the peer, or closed) must leave its connected state:
+            # ExaBGP polls its sockets every 0.1 s, 5 s of a connected state on a dead transport is a stuck session
+            io = pr.connection.io if (pr is not None and pr.connection is not None) else None
+            gone = io is None or getattr(io, 'closed', False) or bool(getattr(io, '_rx_err', 0))
+            if p.fsm.name() in CONNECTED and p.fsm.name() != 'CONNECT' and gone:
+                first = dead.setdefault(name_, w.loop.mono)
+                if w.loop.mono - first > 5.0 and not violations:
+                    violations.append(viol('C05/connected-state-on-dead-transport', f'peer {p.neighbor.session.peer_address} has been {p.fsm.name()} for {w.loop.mono - first:.1f}s although its transport is reset or closed: the session never left the connected state', state=p.fsm.name()))
+            else:
+                dead.pop(name_, None)
         lst = w.reactor.listener
         for io in getattr(lst, '_accepted', {}).values():
             owned.add(id(io))
@@ -287,12 +305,22 @@ def execute(plan: dict) -> dict:
         w.after(5.0, keep_trying)
 
     w.at(6.0, keep_trying)
+    snapshot: dict = {'t': 1e18, 'fsm': {}}
+
+    def take_snapshot() -> None:
+        snapshot['t'] = w.loop.mono
+        snapshot['fsm'] = {str(p.neighbor.session.peer_address): p.fsm.name() for p in w.reactor._peers.values()}
+        snapshot['quiet'] = not w.reactor.processes._write_queue if hasattr(w.reactor.processes, '_write_queue') else True
+
+    w.at_end.append(take_snapshot)
     w.run(until=plan.get('horizon', 60.0))
 
     if not violations:
         violations.extend(check_wire(w, speakers))
     if not violations:
         violations.extend(check_updown(w, h))
+    if not violations and snapshot['fsm'] is not None and snapshot['t'] < 1e17:
+        violations.extend(check_final_down(w, h, snapshot))
     nontrivial = probes['fired_in_connecting_state'] > 0 or probes['collisions'] > 0
     return result(w, violations[:1], faults=faults, probes=probes, nontrivial=nontrivial, sample={'neighbors': len(nbrs), 'events': len(plan['events'])})
 
@@ -369,6 +397,24 @@ def check_updown(w, h) -> list[dict]:
             last[peer] = 'up'
         elif state == 'down':
             last[peer] = 'down'
+    return []
+
+
+def check_final_down(w, h, snapshot: dict) -> list[dict]:
+    """just before the shutdown: a neighbor whose last API event is "up" must still be ESTABLISHED"""
+    last: dict = {}
+    for t, line in h.lines:
+        if t > snapshot['t'] + 0.3 or not line.startswith('{'):  # a "down" still in the pipe at the snapshot counts
+            continue
+        try:
+            ev = json.loads(line)
+        except ValueError:
+            continue
+        if ev.get('type') == 'state' and ev.get('neighbor', {}).get('state') in ('up', 'down'):
+            last[ev['neighbor'].get('address', {}).get('peer')] = ev['neighbor']['state']
+    for peer, state in last.items():
+        if state == 'up' and snapshot['fsm'].get(peer) != 'ESTABLISHED':
+            return [viol('C05/up-without-down', f'neighbor {peer}: the last event on the API is "up" but the peer is {snapshot["fsm"].get(peer, "removed")}: the "down" of that session was never reported', peer=peer, at='end')]
     return []
 
 
